@@ -1104,6 +1104,10 @@ static int http_request_parse_headers(request_st * const restrict r, char * cons
     }
   #endif
 
+    /* the blank line which ends the header section is a line end, too */
+    if (http_header_strict && hoff[hoff[0]+1] - hoff[hoff[0]] != 2)
+        return http_request_header_line_invalid(r, 400, "missing CR before LF in header -> 400");
+
     for (int i = 2; i < hoff[0]; ++i) {
         const char *k = ptr + hoff[i];
         /* one past last line hoff[hoff[0]] is to final "\r\n" */
